@@ -292,7 +292,25 @@ void run_episode(Ctx &x, const Ep &e) {
 
 struct Outcome { string verdict, klass; bool nontrivial = false; uint64_t fp = 0; };
 
+// Memory the library obtains from libc behind the allocator table (getaddrinfo results, stdio buffers, dlopen handles ...) is invisible to
+// the tracking allocator.  Sub-checks that run with LeakSanitizer switched on (ASAN_OPTIONS detect_leaks=1, VERIF_LSAN=1) ask it after
+// every history for blocks that are no longer reachable from anywhere: harness data stays reachable, a result the library dropped does not.
+extern "C" int __lsan_do_recoverable_leak_check(void) __attribute__((weak));
+Outcome run_case_inner(const Case &c);
 Outcome run_case(const Case &c) {
+  Outcome o = run_case_inner(c);
+  static const bool lsan = vl::env("VERIF_LSAN", "0") == "1";
+  // LeakSanitizer reports every block that is unreachable NOW, so once it has reported, every later history of this process would
+  // "fail" too (and rapidcheck would shrink to the empty history): after the first report the oracle is off and the history that
+  // tripped it is reported as it is; the replay runs it in a fresh process.
+  static bool tripped = false;
+  if (lsan && !tripped && __lsan_do_recoverable_leak_check && o.verdict.empty()) {
+    if (__lsan_do_recoverable_leak_check() != 0) { tripped = true; o.klass = "unreachable-heap"; o.verdict = "LeakSanitizer: after the history memory obtained behind the allocator table (libc) is no longer reachable - see the report on stderr"; }
+    else vl::stats().count("histories_checked_by_leaksanitizer");
+  }
+  return o;
+}
+Outcome run_case_inner(const Case &c) {
   Outcome o;
   Ctx x; char u[64]; snprintf(u, sizeof u, "%d_%lx", (int)getpid(), ({ struct timespec ts_; clock_gettime(CLOCK_MONOTONIC, &ts_); (long)(ts_.tv_sec * 1000000000L + ts_.tv_nsec); })); x.uniq = u;
   size_t live0 = va::live_count(); int fds0 = count_fds(); int maps0 = count_shm_maps(); long bytes0 = shm_map_bytes();
